@@ -140,6 +140,10 @@ def run(prop, tier):
         dev = [vname for vname, _, _ in variants if i in whys[vname]]
         if len(dev) == len(variants):
             skip.add(i)
+            fam = cov.setdefault("all_variants_deviate", {})
+            fam[it["family"]] = fam.get(it["family"], 0) + 1
+            if len(cov.setdefault("all_variants_deviate_samples", [])) < 5:
+                cov["all_variants_deviate_samples"].append({"family": it["family"], "case": it.get("case"), "why": whys[dev[0]][i], "src_tail": it["src"][-300:]})
             continue
         for vname in dev:
             why = whys[vname][i]
@@ -157,11 +161,36 @@ def run(prop, tier):
         run_tlc("GCGen", "GCGenQ.cfg", timeout=900, on_line=glines.append)
         glines = [l for l in glines if len(l["h"]) >= 4]
         glines = rng.sample(glines, min(len(glines), 500 if tier == "quick" else 4000)) + gcfin.stress_scripts(rng, 6 if tier == "quick" else 60)
+        # C14 is about the builds behaving alike: a script that the specification of C18 rejects in EVERY build in which
+        # it runs is C18's business (it is reported there); only what some builds do and others do not is reported here
+        found = {}     # script (by identity) -> {variant: (sig, replay)}
+        ran = {}
         for vname, drv, extra in variants:
             use = glines if vname != "noquotas" else [l for l in glines if not any(a["a"] == "enter" for a in l["h"])]   # no runtime.callcontext without quotas
-            rej = gcfin.run_scripts(rep, drv, use, "gc-scripts@" + vname, extra_sig={"variant": vname})
-            cov["variants"].append({"variant": vname, "gc_scripts": len(glines), "rejected": rej})
-            log("[%s] variant %s: %d GC scripts, %d traces rejected" % (prop, vname, len(glines), rej))
+            for l in use:
+                ran.setdefault(id(l), set()).add(vname)
+            sink = lambda idx, sig, replay, use=use, vname=vname: found.setdefault(id(use[idx]), {}).setdefault(vname, (sig, replay))
+            rej = gcfin.run_scripts(rep, drv, use, "gc-scripts@" + vname, extra_sig={"variant": vname}, sink=sink)
+            cov["variants"].append({"variant": vname, "gc_scripts": len(use), "rejected": rej})
+            log("[%s] variant %s: %d GC scripts, %d traces rejected" % (prop, vname, len(use), rej))
+        # what the default build shows on a script is reported by the C18 check (which runs the same scripts on it);
+        # here a build is reported when it does something else than the default build on the same script
+        cov["gc_scripts_same_deviation_as_default"] = 0
+        bare = lambda sg: json.dumps({k: v for k, v in sg.items() if k != "variant"}, sort_keys=True)
+        refname = variants[0][0]
+        for lid, per in found.items():
+            d = per.get(refname)
+            for vname in sorted(ran[lid] - {refname}):
+                pv = per.get(vname)
+                if pv is None and d is None:
+                    continue
+                if pv is not None and d is not None and bare(pv[0]) == bare(d[0]):
+                    cov["gc_scripts_same_deviation_as_default"] += 1
+                    continue
+                if pv is not None:
+                    rep.violation(pv[0], dict(pv[1], default_build=(d[0] if d else "conforms")))
+                else:
+                    rep.violation(dict(d[0], variant=refname, differs_from=vname), dict(d[1], note="the %s build conforms on this script, the default build does not" % vname))
     cov["reference_nonconforming_excluded"] = len(skip)
     if len(skip) > len(items) // 5:
         raise Infra("the reference variant deviates from the specification on %d of %d programs" % (len(skip), len(items)))
